@@ -165,6 +165,102 @@ def run_tlc_batches(chk, module, envname, cases, tag, max_procs=6, target_weight
     return verdicts
 
 
+def _write_batch(args):
+    """worker: build one batch file by streaming (one case in memory at a time); returns per-case summaries"""
+    path, items, prepare_name = args
+    prepare = globals()[prepare_name]
+    info = []
+    with open(path, "w") as f:
+        for it in items:
+            c = prepare(it["path"])
+            for k, v in it.get("extra", {}).items():
+                c[k] = v
+            f.write(json.dumps(c, separators=(",", ":")) + "\n")
+            info.append(summary(c))
+            del c
+    return info
+
+
+def summary(c):
+    """small per-case record kept by the check after the dump itself has been handed to TLC"""
+    L = c.get("levels", [])
+    out = {"id": c["id"], "nlevels": len(L), "geo": bool(c.get("geo", False))}
+    if "parti" in c:      # C12 dump
+        out.update({"success": c["parti"]["success"], "nranks": c["nranks"], "assign": c["assign"] if len(json.dumps(c["assign"])) < 2000 else "(large)",
+                    "fine_cells": L[-1]["base"]["n"][-1] if L else 0})
+        return out
+    if L and "n" in L[-1]:
+        out["fine_cells"] = L[-1]["n"][-1]
+        out["n"] = [M["n"] for M in L]
+        out["parts"] = [p["name"] for p in L[0].get("parts", [])][:8]
+    return out
+
+
+def run_tlc_stream(chk, module, envname, items, tag, prepare="finish_case", max_procs=6, target_weight=None, cap_weight=400000,
+                   timeout=2400, xmx="4g"):
+    """like run_tlc_batches, but memory-bounded: items = [{"id","path","weight"[,"extra"]}]; the batch files are built by
+    worker processes that hold one case at a time (prepare(path) -> case dict), then one TLC process per batch.
+    returns (verdicts by id, summaries by id)"""
+    gdir = os.path.join(vlib.BUILD, "gen", chk.pid)
+    os.makedirs(gdir, exist_ok=True)
+    items = sorted(items, key=lambda it: it["weight"], reverse=True)
+    if target_weight is None:
+        total = sum(it["weight"] for it in items)
+        target_weight = min(max(total // (2 * max_procs) + 1, 20000), cap_weight)
+    batches, cur, w = [], [], 0
+    for it in items:
+        if cur and w + it["weight"] > target_weight:
+            batches.append(cur); cur, w = [], 0
+        cur.append(it); w += it["weight"]
+    if cur:
+        batches.append(cur)
+    paths = [os.path.join(gdir, "%s_batch_%d_%d.ndjson" % (tag, os.getpid(), k)) for k in range(len(batches))]
+    verdicts, infos = {}, {}
+
+    def one(k):
+        r = vlib.tlc(module, module + ".cfg", env={envname: paths[k]}, timeout=timeout, xmx=xmx, tag="%s_%s" % (tag, os.path.basename(paths[k])))
+        try:
+            os.remove(paths[k])
+        except OSError:
+            pass
+        return r
+    try:
+        with cf.ProcessPoolExecutor(max_workers=max_procs) as pex, cf.ThreadPoolExecutor(max_workers=max_procs) as tex:
+            wf = [pex.submit(_write_batch, (paths[k], batches[k], prepare)) for k in range(len(batches))]
+            tf = []
+            for k, fu in enumerate(wf):
+                for inf in fu.result():
+                    infos[inf["id"]] = inf
+                tf.append(tex.submit(one, k))
+            for k, fu in enumerate(tf):
+                r = fu.result()
+                chk.add_tlc(r, "%s batch %d (%d cases)" % (module, k, len(batches[k])))
+                if r.violation:
+                    raise vlib.MachineryError("TLC reported an error while evaluating batch %d: %s\n%s" % (k, r.violation, r.out[-1500:]))
+                for v in r.printed:
+                    verdicts[v["id"]] = v
+                if len(r.printed) != len(batches[k]):
+                    raise vlib.MachineryError("TLC evaluated %d of %d cases of batch %d" % (len(r.printed), len(batches[k]), k))
+    finally:
+        for p in paths:
+            try:
+                os.remove(p)
+            except OSError:
+                pass
+    return verdicts, infos
+
+
+def load_c12(path):
+    """a dump of harness/c12_parti.cpp (no certificate needed)"""
+    with open(path) as f:
+        return json.loads(f.readline())
+
+
+def load_plain(path):
+    with open(path) as f:
+        return json.loads(f.readline())
+
+
 # ------------------------------------------------------------------------------------------------------------
 # seeded re-numbering / re-orientation of a raw mesh (vertex permutation, cell permutation, a rotation of the
 # reference cell per cell).  `rots` is the table of orientation preserving symmetries printed by the
